@@ -32,7 +32,17 @@ def run_scenarios(scenarios, workers=16):
     tmpdir = tempfile.mkdtemp(prefix="vh-rt-")
     try:
         with ThreadPoolExecutor(max_workers=workers) as ex:
-            return list(ex.map(run_one, [(sc, tmpdir, i) for i, sc in enumerate(scenarios)]))
+            outs = list(ex.map(run_one, [(sc, tmpdir, i) for i, sc in enumerate(scenarios)]))
+        # a worker that produced nothing at all is run once more, alone; if it again has to be
+        # killed the scenario counts as one that never ended
+        for i, (sc, o) in enumerate(zip(scenarios, outs)):
+            if o.get("crashed"):
+                o2 = run_one((sc, tmpdir, 100000 + i))
+                if o2.get("crashed"):
+                    o2["killed"] = True
+                o2["retried"] = True
+                outs[i] = o2
+        return outs
     finally:
         import shutil
         shutil.rmtree(tmpdir, ignore_errors=True)
